@@ -111,6 +111,8 @@ enum Op {
     Q(usize),
     R(usize),
     Opt,
+    /// pad record sized so that the message ends exactly at this offset
+    PadTo(usize),
     Goto(usize),
     Rewind,
     LimPlus(usize),
@@ -122,6 +124,7 @@ enum Op {
 enum Item {
     R(usize),
     Opt,
+    Pad(usize),
 }
 
 #[derive(Clone, Default)]
@@ -186,8 +189,45 @@ struct Cfg<T> {
 }
 
 /// Apply one operation; returns (new builder, Some(ok) for pushes).
+fn pad_record(len: usize) -> Record<N, Rd> {
+    Record::new(name(&[b"a"]), Class::IN, Ttl::from_secs(7), Rd::Unknown(UnknownRecordData::from_octets(Rtype::from_int(65283), vec![0xEE; len]).unwrap()))
+}
+
+fn push_any<T: Composer + Clone>(b: B<T>, rec: Record<N, Rd>) -> (B<T>, Option<bool>) {
+    match b {
+        B::An(mut x) => {
+            let r = x.push(rec).is_ok();
+            (B::An(x), Some(r))
+        }
+        B::Ns(mut x) => {
+            let r = x.push(rec).is_ok();
+            (B::Ns(x), Some(r))
+        }
+        B::Ar(mut x) => {
+            let r = x.push(rec).is_ok();
+            (B::Ar(x), Some(r))
+        }
+        other => (other, None),
+    }
+}
+
+/// Returns (builder, push result, pad length used).
+fn apply_pad<T: Composer + Clone>(b: B<T>, target: usize) -> (B<T>, Option<bool>, usize) {
+    let cur = b.slice().len();
+    // measure the overhead of an empty pad on a clone (the owner may or may not get compressed)
+    let (probe, ok) = push_any(b.clone(), pad_record(0));
+    let overhead = probe.slice().len().saturating_sub(cur);
+    if ok != Some(true) || cur + overhead > target || target - cur - overhead > 65000 {
+        return (b, None, 0);
+    }
+    let len = target - cur - overhead;
+    let (nb, r) = push_any(b, pad_record(len));
+    (nb, r, len)
+}
+
 fn apply<T: Composer + Clone>(b: B<T>, op: Op, sp: &[RSpec]) -> (B<T>, Option<bool>) {
     match op {
+        Op::PadTo(_) => unreachable!("handled by apply_pad"),
         Op::Q(i) => match b {
             B::Q(mut q) => {
                 let r = q.push(Question::new(name(QS[i].0), Rtype::from_int(QS[i].1), Class::IN)).is_ok();
@@ -290,6 +330,7 @@ fn enabled(m: &Model, op: Op) -> bool {
         Op::Q(_) => m.stage == 0,
         Op::R(_) => m.stage >= 1,
         Op::Opt => m.stage == 3 && !m.sections[2].contains(&Item::Opt),
+        Op::PadTo(_) => m.stage >= 1,
         Op::Goto(st) => st != m.stage,
         Op::Rewind => true,
         Op::LimPlus(_) | Op::LimHere => true,
@@ -374,6 +415,11 @@ fn check_state<T: Composer + Clone>(cfg: &Cfg<T>, b: &B<T>, m: &Model, sp: &[RSp
                         return Err(("opt-mismatch".into(), format!("OPT reads back as type {} class {} ttl {:#x} rdata {}", r.rtype, r.class, r.ttl, hex(&r.rdata))));
                     }
                 }
+                Item::Pad(len) => {
+                    if r.owner != labels(&[b"a"]) && !mc::wire::labels_eq_ci(&r.owner, &labels(&[b"a"])) || r.rtype != 65283 || r.ttl != 7 || r.rdata.len() != *len || r.rdata.iter().any(|x| *x != 0xEE) {
+                        return Err(("pad-mismatch".into(), format!("section {s} record {i} (pad of {len}) reads back as type {} len {}", r.rtype, r.rdata.len())));
+                    }
+                }
                 Item::R(k) => {
                     let spc = &sp[*k];
                     if !mc::wire::labels_eq_ci(&r.owner, &spc.owner) {
@@ -437,7 +483,15 @@ fn dfs<T: Composer + Clone>(sh: &Shared, cfg: &Cfg<T>, b: &B<T>, m: &Model, hist
         hist.push(op);
         sh.transitions.fetch_add(1, AO::Relaxed);
         let before = b.slice().to_vec();
-        let r = guard(|| apply(b.clone(), op, sh.sp));
+        let mut pad_len = 0usize;
+        let r = guard(|| match op {
+            Op::PadTo(t) => {
+                let (nb, res, len) = apply_pad(b.clone(), t);
+                pad_len = len;
+                (nb, res)
+            }
+            _ => apply(b.clone(), op, sh.sp),
+        });
         let case = |h: &Vec<Op>| json!({"config": cfg.name, "ops": h.iter().map(|o| format!("{:?}", o)).collect::<Vec<_>>()});
         match r {
             Err(p) => {
@@ -450,6 +504,12 @@ fn dfs<T: Composer + Clone>(sh: &Shared, cfg: &Cfg<T>, b: &B<T>, m: &Model, hist
                     (Op::Q(i), Some(true)) => nm.questions.push(i),
                     (Op::R(i), Some(true)) => nm.sections[m.stage - 1].push(Item::R(i)),
                     (Op::Opt, Some(true)) => nm.sections[2].push(Item::Opt),
+                    (Op::PadTo(_), Some(true)) => nm.sections[m.stage - 1].push(Item::Pad(pad_len)),
+                    (Op::PadTo(_), None) => {
+                        // target not reachable from here: not an operation
+                        hist.pop();
+                        continue;
+                    }
                     (_, Some(false)) => {
                         sh.pushes_err.fetch_add(1, AO::Relaxed);
                         // a failed push must leave octets (and thereby counts) exactly as they were
@@ -530,6 +590,7 @@ fn op_kind(op: Op) -> &'static str {
         Op::Q(_) => "question",
         Op::R(_) => "record",
         Op::Opt => "opt",
+        Op::PadTo(_) => "pad",
         _ => "other",
     }
 }
@@ -550,9 +611,21 @@ fn run_cfg<T: Composer + Clone + Send + Sync>(sh: &Shared, cfg: &Cfg<T>, depth: 
             dfs(&sh1, cfg, &b, &m, &mut hist, 1);
             // advance
             let before = b.slice().len();
-            let (nb, res) = apply(b, *op, sh.sp);
+            let (nb, res) = match op {
+                Op::PadTo(t) => {
+                    let (nb, res, len) = apply_pad(b, *t);
+                    if res == Some(true) {
+                        m.sections[m.stage - 1].push(Item::Pad(len));
+                    }
+                    (nb, res)
+                }
+                _ => {
+                    let (nb, res) = apply(b, *op, sh.sp);
+                    advance_model(&mut m, *op, res, before);
+                    (nb, res)
+                }
+            };
             b = nb;
-            advance_model(&mut m, *op, res, before);
             println!("  after {:?}: {} octets, result {:?}", op, b.slice().len(), res);
         }
         return;
@@ -560,7 +633,7 @@ fn run_cfg<T: Composer + Clone + Send + Sync>(sh: &Shared, cfg: &Cfg<T>, depth: 
     let b0 = init();
     let m0 = Model::default();
     // parallelise over the first two operations
-    let firsts: Vec<Op> = sh.ops.iter().cloned().filter(|o| enabled(&m0, *o)).collect();
+    let firsts: Vec<Op> = sh.ops.iter().cloned().filter(|o| enabled(&m0, *o) && !matches!(o, Op::PadTo(_))).collect();
     firsts.par_iter().for_each(|&o1| {
         let sh1 = Shared { ops: std::slice::from_ref(&o1), ..shared_clone(sh) };
         // execute o1 with checking via a depth-1 dfs, then continue manually
@@ -571,7 +644,7 @@ fn run_cfg<T: Composer + Clone + Send + Sync>(sh: &Shared, cfg: &Cfg<T>, depth: 
             let mut m1 = m0.clone();
             advance_model(&mut m1, o1, res, before);
             if check_state(cfg, &b1, &m1, sh.sp).is_ok() {
-                let seconds: Vec<Op> = sh.ops.iter().cloned().filter(|o| enabled(&m1, *o)).collect();
+                let seconds: Vec<Op> = sh.ops.iter().cloned().filter(|o| enabled(&m1, *o) && !matches!(o, Op::PadTo(_))).collect();
                 seconds.par_iter().for_each(|&o2| {
                     let sh2 = Shared { ops: std::slice::from_ref(&o2), ..shared_clone(sh) };
                     let mut hist = vec![o1];
@@ -598,6 +671,7 @@ fn shared_clone<'a>(sh: &Shared<'a>) -> Shared<'a> {
 
 fn advance_model(m: &mut Model, op: Op, res: Option<bool>, before_len: usize) {
     match (op, res) {
+        (Op::PadTo(_), _) => unreachable!("PadTo is never a prefix operation"),
         (Op::Q(i), Some(true)) => m.questions.push(i),
         (Op::R(i), Some(true)) => m.sections[m.stage - 1].push(Item::R(i)),
         (Op::Opt, Some(true)) => m.sections[2].push(Item::Opt),
@@ -629,6 +703,8 @@ fn parse_op(s: &str) -> Op {
         Op::Q(num(s))
     } else if s.starts_with("R(") {
         Op::R(num(s))
+    } else if s.starts_with("PadTo(") {
+        Op::PadTo(num(s))
     } else if s.starts_with("Goto(") {
         Op::Goto(num(s))
     } else if s.starts_with("LimPlus(") {
@@ -725,7 +801,7 @@ fn main() {
     // Quick tier: the heavy pad records only take part at depth <= 4 via a
     // second pass with a pad-focused alphabet; see `pad_ops` below.
     let small_ops: Vec<Op> = ops.iter().cloned().filter(|o| !matches!(o, Op::R(6) | Op::R(7))).collect();
-    let pad_ops: Vec<Op> = vec![Op::Q(0), Op::R(0), Op::R(1), Op::R(2), Op::R(4), Op::R(6), Op::R(7), Op::R(8), Op::Goto(1), Op::Goto(3), Op::Rewind, Op::Goto(0), Op::LimPlus(30)];
+    let pad_ops: Vec<Op> = vec![Op::Q(0), Op::R(0), Op::R(1), Op::R(2), Op::R(4), Op::R(6), Op::R(7), Op::R(8), Op::Goto(1), Op::Goto(3), Op::Rewind, Op::Goto(0), Op::LimPlus(30), Op::PadTo(0x3FFE), Op::PadTo(0x3FFF), Op::PadTo(0x4000), Op::PadTo(0x4001)];
 
     let env = Env { sh: &sh, stats: &stats, replay: &replay, small_ops: &small_ops, pad_ops: &pad_ops, depth, total_tr: &total_tr, cfg_names: std::sync::Mutex::new(Vec::new()) };
     cfgs!(env);
